@@ -38,7 +38,7 @@ from ..rules import call_sites
 from ..mutate import mutate, remove_stmts, replace_expr, replace_stmt, parse_stmt, parse_expr
 from ..x_http import (
     RegexEnv, atom_edges, group_count, group_rx, leads_to_raise, only_through, reach_without, resolve_call, single_bindings,
-    truthy_edges, canon_atom, self_modsets, norm_func, Flow, group_index,
+    truthy_edges, canon_atom, self_modsets, norm_func, Flow, group_index, argx, bound_args, mk_evaluator, module_consts,
 )
 from ..x_absint import Evaluator, HeaderMap, Obj, UNK, Raised
 from . import c04 as _c04
@@ -182,21 +182,21 @@ def _hook_te(st, h=None, *a):
 
 
 def _client_slice(fi):
-    """The statements of _read_message from the initialisation of the skip flag up to
-    (and including) the statement that starts the body read."""
+    """The statements of _read_message from the initialisation of the skip flag up to (and including) the statement
+    that starts the body read — whatever the polarity or nesting of the test that guards it."""
     for node in ast.walk(fi.node):
-        body = getattr(node, "body", None)
-        if not isinstance(body, list):
-            continue
-        for j, st in enumerate(body):
-            if isinstance(st, ast.If) and any(isinstance(c, ast.Call) and q.call_attr(c) == "_read_body" for c in ast.walk(st)):
-                t = st.test
-                if isinstance(t, ast.UnaryOp) and isinstance(t.op, ast.Not) and isinstance(t.operand, ast.Name):
-                    flag = t.operand.id
-                    for i in range(j - 1, -1, -1):
-                        s0 = body[i]
-                        if isinstance(s0, ast.Assign) and any(isinstance(x, ast.Name) and x.id == flag for x in s0.targets) and isinstance(s0.value, ast.Constant):
-                            return flag, body[i:j + 1], st
+        for fld in ("body", "orelse"):
+            body = getattr(node, fld, None)
+            if not isinstance(body, list):
+                continue
+            for j, st in enumerate(body):
+                if not isinstance(st, ast.If) or not any(isinstance(c, ast.Call) and q.call_attr(c) == "_read_body" for c in ast.walk(st)):
+                    continue
+                flags = [x.id for x in ast.walk(st.test) if isinstance(x, ast.Name)]
+                for i in range(j - 1, -1, -1):
+                    s0 = body[i]
+                    if isinstance(s0, ast.Assign) and isinstance(s0.value, ast.Constant) and isinstance(s0.value.value, bool) and any(isinstance(x, ast.Name) and x.id in flags for x in s0.targets):
+                        return [x.id for x in s0.targets if isinstance(x, ast.Name)][0], body[i:j + 1], st
     raise AnalysisError("_read_message: cannot locate the client framing slice (skip flag ... _read_body)")
 
 
@@ -204,8 +204,8 @@ def _names_for(fi, slice_stmts):
     """local names the slice reads for the response start line / headers / delegate (derived from the _read_body call)"""
     for st in slice_stmts:
         for c in ast.walk(st):
-            if isinstance(c, ast.Call) and q.call_attr(c) == "_read_body" and len(c.args) == 3:
-                code_e, hdr, dele = c.args
+            if isinstance(c, ast.Call) and q.call_attr(c) == "_read_body" and len(c.args) + len(c.keywords) == 3:
+                code_e, hdr, dele = q.arg(c, 0, "code"), q.arg(c, 1, "headers"), q.arg(c, 2, "delegate")
                 return code_e, q.dotted(hdr), q.dotted(dele)
     raise AnalysisError("_read_body call of unknown shape")
 
@@ -219,7 +219,8 @@ def eval_client_slice(ck, fi, method, code, cl, te):
         if d in ("self._read_message", "self._read_body"):
             calls.append((d, list(args)))
 
-    ev = Evaluator(on_call=on_call, funcs={"self._read_body": lambda st, *a: UNK, "self._read_message": lambda st, *a: UNK})
+    ev = mk_evaluator(fi, on_call=on_call, funcs={"self._read_body": lambda st, *a: UNK, "self._read_message": lambda st, *a: UNK})
+    ev.signatures["self._read_body"] = [p_ for p_ in ck.repo.func(H1, "HTTP1Connection._read_body").params() if p_ != "self"]
     sl = Obj("resp", code=code, version="HTTP/1.1", reason="X")
     me = Obj("self", is_client=True, _request_start_line=Obj("req", method=method, version="HTTP/1.1", path="/"), stream=Obj("stream"),
              _body_timeout=None, _write_finished=True, _disconnect_on_finish=False)
@@ -265,12 +266,13 @@ def eval_read_body(ck, fi, code, cl, te, limit=1000, is_client=True):
     ps = [p for p in fi.params() if p != "self"]
     if len(ps) != 3:
         raise AnalysisError("_read_body: expected (code, headers, delegate)")
-    ev = Evaluator(funcs={
+    ev = mk_evaluator(fi, funcs={
         "parse_int": _hook_parse_int, "is_transfer_encoding_chunked": _hook_te,
         "self._read_chunked_body": lambda st, *a: ("chunked",), "self._read_fixed_body": lambda st, *a: ("fixed", a[0] if a else UNK),
         "self._read_body_until_close": lambda st, *a: ("close",),
         "re.split": lambda st, pat=None, s=None, *a: (__import__("re").split(pat, s) if isinstance(pat, str) and isinstance(s, str) else UNK),
     })
+    ev.signatures.update({"parse_int": ["s"], "is_transfer_encoding_chunked": ["headers"], "self._read_fixed_body": ["content_length", "delegate"]})
     ev.fallback = _regex_fallback(ck, fi)
     # only the live field carries the limit: the configured value and the buffer size are decoys
     me = Obj("self", is_client=is_client, _max_body_size=limit, params=Obj("params", max_body_size=10 ** 6), stream=Obj("stream", max_buffer_size=10 ** 6))
@@ -397,7 +399,7 @@ def check_framing(ck):
     ps = [p for p in wh.params() if p != "self"]
     for method in ("GET", "HEAD"):
         for code in CODES:
-            ev = Evaluator(modset=lambda d: ms.get(d.split(".")[1]))
+            ev = mk_evaluator(wh, modset=lambda d: ms.get(d.split(".")[1]))
             me = Obj("self", is_client=False, _disconnect_on_finish=False, _chunking_output=False, _expected_content_remaining=None,
                      _request_start_line=Obj("req", version="HTTP/1.1", method=method, path="/"), _request_headers=HeaderMap(), stream=Obj("stream"))
             env = {"self": me, ps[0]: Obj("start_line", version="HTTP/1.1", code=code, reason="X"), ps[1]: HeaderMap()}
@@ -445,7 +447,7 @@ def check_limits(ck):
                 return None
             return NotImplemented
 
-        ev = Evaluator()
+        ev = mk_evaluator(gf)
         ev.fallback = fb
         me = Obj("self", _delegate=Obj("inner"), _decompressor=(None if tail is None else Obj("decompressor")))
         outs = ev.run(gf.node, {"self": me})
@@ -467,7 +469,7 @@ def check_limits(ck):
             if d is not None and d.startswith("self.") and d.endswith(".headers_received"):
                 fwd_args.append([dict(a.d) if isinstance(a, HeaderMap) and not a.poisoned else None for a in args])
 
-        ev = Evaluator(on_call=on_call, funcs={"GzipDecompressor": lambda st, *a: Obj("decompressor")})
+        ev = mk_evaluator(hr, on_call=on_call, funcs={"GzipDecompressor": lambda st, *a: Obj("decompressor")})
         h = HeaderMap({"Content-Type": "text/plain"})
         if ce is not None:
             h["Content-Encoding"] = ce
@@ -502,7 +504,7 @@ def check_client_plumbing(ck):
     ps = [p for p in wh.params() if p != "self"]
     ms = self_modsets(ck.repo, H1, "HTTP1Connection")
     for method in ("GET", "HEAD", "POST"):
-        ev = Evaluator(modset=lambda d: ms.get(d.split(".")[1]))
+        ev = mk_evaluator(wh, modset=lambda d: ms.get(d.split(".")[1]))
         sl = Obj("request_line", method=method, path="/", version="HTTP/1.1")
         me = Obj("self", is_client=True, _request_start_line=None, stream=Obj("stream"), _chunking_output=False, _expected_content_remaining=None)
         env = {"self": me, ps[0]: sl, ps[1]: HeaderMap({"Host": "x"})}
@@ -528,56 +530,84 @@ def check_client_plumbing(ck):
 def fold_until_close(ck, blen, limit, write_finished=True):
     fi = _F(ck, H1, "HTTP1Connection._read_body_until_close")
     ps = [p for p in fi.params() if p != "self"]
-    out = []
-    delivered = []
 
     def fb(st, c, d, args):
         nm = q.call_attr(c)
         if nm == "read_until_close":
             return b"b" * blen
         if nm == "data_received":
-            delivered.append(len(args[0]) if args and isinstance(args[0], (bytes, bytearray)) else None)
+            a = st.env["self"].attrs["stream"].attrs
+            a0 = args[0] if args else (list(st.last_kwargs.values())[0] if len(st.last_kwargs) == 1 else None)
+            a["delivered"] = a["delivered"] + [len(a0) if isinstance(a0, (bytes, bytearray)) else None]
             return None
         return NotImplemented
 
-    ev = Evaluator()
+    ev = mk_evaluator(fi)
     ev.fallback = fb
-    me = Obj("self", stream=Obj("stream", max_buffer_size=10 ** 6), is_client=True, _write_finished=write_finished, _max_body_size=limit, params=Obj("params", max_body_size=10 ** 6, chunk_size=4))
+    me = Obj("self", stream=Obj("stream", max_buffer_size=10 ** 6, delivered=[]), is_client=True, _write_finished=write_finished, _max_body_size=limit, params=Obj("params", max_body_size=10 ** 6, chunk_size=4))
     outs = ev.run(fi.node, dict({"self": me}, **{p: Obj("delegate") for p in ps}))
     if not outs:
         raise AnalysisError("_read_body_until_close: no outcome")
-    if len(outs) > 1:
-        raise AnalysisError("_read_body_until_close: outcome not decidable by folding")
-    o = outs[0]
-    if None in delivered:
-        raise AnalysisError("_read_body_until_close: delivered data not decidable")
-    return [(o.kind, o.value if o.kind == "raise" else None, list(delivered))]
+    res = []
+    for o in outs:
+        dl = o.state.env["self"].attrs["stream"].attrs["delivered"]
+        if None in dl:
+            raise AnalysisError("_read_body_until_close: delivered data not decidable")
+        res.append((o.kind, o.value if o.kind == "raise" else None, list(dl)))
+    return res
 
 
-def fold_fixed(ck, length, write_finished=True):
+def fold_fixed(ck, length, write_finished=True, is_client=True):
+    """Fold _read_fixed_body on a scripted stream (partial reads return fewer bytes than asked).  All accounting lives
+    in the abstract state, so paths forked on unknown conditions are accounted separately.
+    Returns [(kind, exc, delivered lengths)]; per-outcome details in fold_fixed.details."""
+    from ..x_absint import call_value
     fi = _F(ck, H1, "HTTP1Connection._read_fixed_body")
     ps = [p for p in fi.params() if p != "self"]
-    delivered = []
+
+    def acct(st):
+        return st.env["self"].attrs["stream"].attrs
 
     def fb(st, c, d, args):
         nm = q.call_attr(c)
-        if nm == "read_bytes" and args and isinstance(args[0], int):
-            got = (args[0] + 1) // 2
-            return b"x" * got
+        if nm == "read_bytes" and isinstance(call_value(st, args, 0, "num_bytes"), int):
+            a = acct(st)
+            n_ = call_value(st, args, 0, "num_bytes")
+            got = (n_ + 1) // 2
+            if n_ > a["owed"]:
+                a["over_request"] = True
+            a["owed"] = max(0, a["owed"] - got)
+            a["reads"] = a["reads"] + 1
+            data = bytes([65 + a["reads"] % 26]) * got
+            a["read_bytes"] = a["read_bytes"] + data
+            return data
         if nm == "data_received":
-            delivered.append(len(args[0]) if args and isinstance(args[0], (bytes, bytearray)) else None)
+            a = acct(st)
+            a0 = args[0] if args else (list(st.last_kwargs.values())[0] if len(st.last_kwargs) == 1 else None)
+            a["delivered"] = a["delivered"] + [len(a0) if isinstance(a0, (bytes, bytearray)) else None]
+            if isinstance(a0, (bytes, bytearray)):
+                a["delivered_bytes"] = a["delivered_bytes"] + bytes(a0)
             return None
         return NotImplemented
 
-    ev = Evaluator()
+    ev = mk_evaluator(fi)
     ev.fallback = fb
     ev.max_unroll = length + 3
-    me = Obj("self", stream=Obj("stream"), is_client=True, _write_finished=write_finished, params=Obj("params", chunk_size=4))
+    stream = Obj("stream", owed=length, over_request=False, reads=0, read_bytes=b"", delivered_bytes=b"", delivered=[])
+    me = Obj("self", stream=stream, is_client=is_client, _write_finished=write_finished, params=Obj("params", chunk_size=4))
     outs = ev.run(fi.node, {"self": me, ps[0]: length, ps[1]: Obj("delegate")})
-    if len(outs) != 1 or None in delivered:
-        raise AnalysisError("_read_fixed_body: outcome not decidable by folding")
-    o = outs[0]
-    return [(o.kind, o.value if o.kind == "raise" else None, list(delivered))]
+    if not outs:
+        raise AnalysisError("_read_fixed_body: no outcome")
+    res = []
+    fold_fixed.details = []
+    for o in outs:
+        a = acct(o.state)
+        if None in a["delivered"]:
+            raise AnalysisError("_read_fixed_body: delivered data not decidable by folding")
+        res.append((o.kind, o.value if o.kind == "raise" else None, list(a["delivered"])))
+        fold_fixed.details.append(dict(a))
+    fold_fixed.detail = fold_fixed.details[0]
+    return res
 
 
 def check_assembly(ck):
@@ -589,6 +619,7 @@ def check_assembly(ck):
 
     def evaluator(root, **kw):
         ev = Evaluator(modset=lambda d: ms.get(d.split(".")[1]), **kw)
+        ev.globals = module_consts(repo.module(SC))
 
         def inline(d):
             name = d.split(".")[1]
@@ -688,7 +719,10 @@ def check_assembly(ck):
     ctor = [c for c in q.calls(cc.node) if q.call_attr(c) == "HTTP1Connection"]
     ck.floor(R, len(ctor), 1, "HTTP1Connection constructions in the client")
     for c in ctor:
-        ck.ob(R, cc, c, len(c.args) >= 2 and q.is_const(c.args[1], True) or q.is_const(q.kwarg(c, "is_client"), True), "the client connection is created with is_client=True")
+        ic = argx(ck.repo, cc, c, 1, "is_client")
+        if ic is None or not isinstance(ic, ast.Constant):
+            raise AnalysisError("_create_connection: is_client argument not decidable (%s)" % q.unparse(c)[:80])
+        ck.ob(R, cc, c, q.is_const(ic, True), "the client connection is created with is_client=True")
     pc = [c for c in q.calls(cc.node) if q.call_attr(c) == "HTTP1ConnectionParameters"]
     ck.floor(R, len(pc), 1, "HTTP1ConnectionParameters constructions in the client")
     for c in pc:
@@ -739,6 +773,7 @@ def run(ck):
     for k, v in shared.items():
         ck.rule("C08." + k, v)
     env = RegexEnv(ck.repo)
+    _c01.init_modules(ck)
     tree = _c01.read_tree(ck)
     _c01.check_header_block(ck, env, RP="C08")
     _c01.check_header_fields(ck, env, RP="C08")
